@@ -340,7 +340,18 @@ Section WithHash.
   Definition authorize := authorize_with validate_qop false.
   Definition authorize_pinned := authorize_with validate_qop_pinned true.
 
-  (* createDigestAuth: header value or error.  [chal] = resp.Header.Get("WWW-Authenticate") *)
+  (* the WWW-Authenticate line createDigestAuth works on: the first line that is a Digest
+     challenge, otherwise the first line (Header.Get), [] when there is none *)
+  Definition is_digest_line (l : bytes) : bool := has_prefix (bs "Digest ") (trim is_chal_ws l).
+  Definition select_challenge (lines : list bytes) : bytes :=
+    match find is_digest_line lines with
+    | Some l => l
+    | None => hd [] lines
+    end.
+  (* pinned code: resp.Header.Get - the first line whatever its scheme *)
+  Definition select_challenge_pinned (lines : list bytes) : bytes := hd [] lines.
+
+  (* createDigestAuth on the selected line: header value or error *)
   Definition create_digest_auth (chal uri method user pass cnonce : bytes) : bytes + derr :=
     match chal with
     | [] => inr EBadChallenge
